@@ -71,5 +71,25 @@ func TestVerifReplayJSONExpr(t *testing.T) {
 		}
 	}
 	rec("", maxLen)
+	// object keys computed from marked values: no panic, and the mark is on the object
+	for _, kv := range []cty.Value{cty.StringVal("x").Mark("secret"), cty.UnknownVal(cty.String).Mark("secret")} {
+		func() {
+			n++
+			defer func() {
+				if r := recover(); r != nil {
+					t.Errorf("REPLAY-FAIL func=json.(*expression).Value input=%q object key from %#v: panic: %v", "marked-key", kv, r)
+				}
+			}()
+			f, diags := Parse([]byte(`{"a": {"${k}": 1, "b": 2}}`), "t.json")
+			if diags.HasErrors() {
+				return
+			}
+			attrs, _ := f.Body.JustAttributes()
+			v, d := attrs["a"].Expr.Value(&hcl.EvalContext{Variables: map[string]cty.Value{"k": kv}})
+			if !d.HasErrors() && !v.HasMark("secret") {
+				t.Errorf("REPLAY-FAIL func=json.(*expression).Value input=%q object key from %#v: result %#v lost the mark", "marked-key", kv, v)
+			}
+		}()
+	}
 	fmt.Printf("STANDIN inputs=%d bound=\"every JSON string of at most %d fragments from a %d-fragment template alphabet, full-expression and literal-only mode\"\n", n, maxLen, len(frags))
 }
